@@ -14,14 +14,13 @@ pub struct DateTime {
 
 impl DateTime {
     pub(crate) fn from_node(node: &Node) -> Result<Option<Self>> {
-        let gps_time_text = node
+        let gps_time_node = node
             .children()
             .find(|n| xml::has_name(n, "dateTimeValue") && n.attribute("type") == Some("Float"))
-            .invalid_err("Unable to find XML tag 'dateTimeValue' with type 'Float'")?
-            .text();
+            .invalid_err("Unable to find XML tag 'dateTimeValue' with type 'Float'")?;
         // An empty tag means zero, this is how some E57 libraries write zero values
-        let gps_time = gps_time_text
-            .unwrap_or("0")
+        let gps_time = xml::text(&gps_time_node)
+            .unwrap_or_else(|| "0".to_owned())
             .parse::<f64>()
             .invalid_err("Failed to parse inner text of XML tag 'dateTimeValue' as double")?;
 
@@ -29,7 +28,7 @@ impl DateTime {
             xml::has_name(n, "isAtomicClockReferenced") && n.attribute("type") == Some("Integer")
         });
         let atomic_reference = if let Some(node) = atomic_reference_node {
-            node.text().unwrap_or("0").trim() == "1"
+            xml::text(&node).unwrap_or_default().trim() == "1"
         } else {
             return Ok(None);
         };
